@@ -208,6 +208,8 @@ def judge_c15(plan, result):
     arch_listing = {}
     snap_of_ev = {}
     aborted_scan_cfgs = set()
+    faulted_scan_cfgs = set()
+    faulted_objs = set()
     cancelled_on_ev = set()
     for ev in result["log"]:
         op, res = ev["op"], ev["res"]
@@ -234,8 +236,15 @@ def judge_c15(plan, result):
                 _bump(pr, "scan_cancelled")
                 aborted_scan_cfgs.add(op["cfg"])
                 continue
+            if res.get("r") in ("IOFAULT", "IOFAULT_SWALLOWED"):
+                # F15: the disk failed under this request; only what comes after is judged
+                _bump(pr, "scan_failed_by_io_error" if res["r"] == "IOFAULT" else "scan_io_error_swallowed")
+                faulted_scan_cfgs.add(op["cfg"])
+                continue
             if op["cfg"] in aborted_scan_cfgs:
                 _bump(pr, "scan_after_cancelled_scan_of_same_request")
+            if op["cfg"] in faulted_scan_cfgs:
+                _bump(pr, "scan_after_io_error_on_same_request")
             if res.get("r") == "ok":
                 snap_of_ev[op["ev"]] = res["snap"]
             st["scans"] += 1
@@ -265,8 +274,11 @@ def judge_c15(plan, result):
         if res.get("r") == "skip" and res.get("why") in ("no-evaluable", "no-object"):
             continue
         cancelled = res.get("r") == "ABORTED"
+        io_failed = res.get("r") == "IOFAULT"
         if cancelled:
             _bump(pr, "evaluation_cancelled")
+        elif io_failed:
+            _bump(pr, "evaluation_failed_by_io_error")
         elif res.get("tainted"):
             _bump(pr, "evaluation_on_cancelled_object_not_judged")
         else:
@@ -283,6 +295,14 @@ def judge_c15(plan, result):
         if cancelled or res.get("tainted"):
             # nothing is specified about a rule object whose evaluation was cancelled
             continue
+        if io_failed:
+            # F15: no verdict is expected from an evaluation under which the disk failed (I2 was
+            # checked above); the same rule object is judged as usual from its next evaluation on
+            faulted_objs.add(op["obj"])
+            last_on_ev[op["ev"]] = "NOVERDICT"
+            continue
+        if op["obj"] in faulted_objs:
+            _bump(pr, "evaluation_after_io_error_on_same_rule_object")
         ref = iso_out.get(key)
         if ref is not None:
             want = _cls(ref)
